@@ -1,8 +1,10 @@
 package main
 
 import (
+	"fmt"
 	"go/token"
 	"go/types"
+	"regexp"
 	"sort"
 	"strings"
 
@@ -518,12 +520,13 @@ func rulePanicInv(c *Ctx, r *Rep) {
 				n++
 				fk := c.FuncKey(fn)
 				key := "panic|" + fk
-				why, known := panicDischarge[fk]
+				role := panicRole(c, fn)
+				why, known := panicDischarge[role]
 				if !known {
 					r.Bad(key, c.Pos(p.Pos()), "no explicit panic reachable from file contents, or a named invariant discharging it", "reachable via "+strings.Join(reach[fn], " -> "))
 					continue
 				}
-				ok2, how := dischargePanic(c, fk, fn, p)
+				ok2, how := dischargePanic(c, role, fn, p)
 				r.Check(ok2, key, c.Pos(p.Pos()), why, how)
 			}
 		}
@@ -594,9 +597,20 @@ func dischargePanic(c *Ctx, fk string, fn *ssa.Function, p *ssa.Panic) (bool, st
 		if !defErr {
 			return false, "the table's default path does not return an error"
 		}
-		// Sign returns on the table's error before the key-kind dispatch
-		for _, ci := range callsIn(fn) {
+		// Sign returns on the table's error before the key-kind dispatch (which may sit in a helper it calls)
+		signFn, _ := c.signFunc()
+		var at ssa.Instruction = p
+		if fn != signFn {
+			for _, ci := range callsIn(signFn) {
+				if ci.Common().StaticCallee() == fn {
+					at = ci
+				}
+			}
+		}
+		seenTab := false
+		for _, ci := range callsIn(signFn) {
 			if ci.Common().StaticCallee() == tab {
+				seenTab = true
 				e, _ := errValueOf(ci)
 				if e == nil {
 					return false, "the table's error is discarded"
@@ -605,11 +619,15 @@ func dischargePanic(c *Ctx, fk string, fn *ssa.Function, p *ssa.Panic) (bool, st
 				if !ok {
 					return false, "the table's error is not returned: " + how
 				}
-				if !instrDominates(ci, p) {
+				if !instrDominates(ci, at) {
 					return false, "the panic is not dominated by the table call"
 				}
 			}
 		}
+		if !seenTab {
+			return false, "the signing function does not consult the algorithm table"
+		}
+		// the key kind dispatched on is the table's answer
 		return true, sprintf("%d rows, key kinds EC/RSA; error returned before dispatch", len(rows))
 	case "config.CertificateContent.HashSum":
 		// the panic is guarded by the error of json.Marshal of the receiver
@@ -838,6 +856,23 @@ func ruleYearRange(c *Ctx, r *Rep) {
 		type bnd struct{ lb, ub *int64 }
 		bounds := map[string]*bnd{}
 		for _, g := range guardsOf(ret.Block()) {
+			// a boolean helper over one time value: what its answer true implies for the year
+			if hc, isCall := g.Cond.(*ssa.Call); isCall && g.Truth {
+				if hf := hc.Call.StaticCallee(); hf != nil && c.InModule(hf) && hf.Blocks != nil && len(hf.Params) == 1 && len(hc.Call.Args) == 1 {
+					if lb, ub, okB := yearBoundsOfHelper(c, hf); okB {
+						if f := fieldLoad(hc.Call.Args[0]); f != nil {
+							b := bounds[f.Name()]
+							if b == nil {
+								b = &bnd{}
+								bounds[f.Name()] = b
+							}
+							l, u := lb, ub
+							b.lb, b.ub = &l, &u
+						}
+					}
+				}
+				continue
+			}
 			bin, ok := g.Cond.(*ssa.BinOp)
 			if !ok {
 				continue
@@ -898,4 +933,130 @@ func ruleYearRange(c *Ctx, r *Rep) {
 	if nSucc == 0 {
 		r.Undecided("shape:validity-parser", c.FnPos(fn), "no successful return found")
 	}
+}
+
+var reYearCmp = regexp.MustCompile(`^(<|<=|>|>=)\(\(time\.Time\)\.Year\(P\$0\) ; K\((-?\d+)\)\)$`)
+
+// yearBoundsOfHelper: for a boolean module function of one time.Time parameter, the bounds lb <= t.Year() <= ub that
+// hold on every path on which it answers true (ok is false when some such path leaves a side open).
+func yearBoundsOfHelper(c *Ctx, f *ssa.Function) (lb, ub int64, ok bool) {
+	if hasLoop(f) || f.Signature.Results().Len() != 1 {
+		return 0, 0, false
+	}
+	a := &atomizer{c: c, pv: c.newProv(), fn: f}
+	first := true
+	for _, ret := range returnsOf(f) {
+		for _, pe := range phiEdges(retResults(ret)[0], ret.Block()) {
+			var extra []literal
+			if k, isK := pe.Val.(*ssa.Const); isK {
+				if !constBool(k) {
+					continue
+				}
+			} else {
+				s, pos := a.atom(pe.Val)
+				extra = []literal{{s, pos}}
+			}
+			from := pe.From
+			if from == nil {
+				from = ret.Block()
+			}
+			paths, okP := a.pathsDNF(f.Blocks[0], from, 64)
+			if !okP {
+				return 0, 0, false
+			}
+			for _, conj := range paths {
+				var plb, pub *int64
+				for _, l := range append(append([]literal{}, conj...), extra...) {
+					m := reYearCmp.FindStringSubmatch(l.atom)
+					if m == nil {
+						continue
+					}
+					var K int64
+					fmt.Sscan(m[2], &K)
+					op := m[1]
+					if !l.pos {
+						op = map[string]string{"<": ">=", "<=": ">", ">": "<=", ">=": "<"}[op]
+					}
+					switch op {
+					case "<":
+						v := K - 1
+						pub = &v
+					case "<=":
+						v := K
+						pub = &v
+					case ">":
+						v := K + 1
+						plb = &v
+					case ">=":
+						v := K
+						plb = &v
+					}
+				}
+				if plb == nil || pub == nil {
+					return 0, 0, false
+				}
+				if first || *plb < lb {
+					lb = *plb
+				}
+				if first || *pub > ub {
+					ub = *pub
+				}
+				first = false
+			}
+		}
+	}
+	return lb, ub, !first
+}
+
+// signHostKey: fn's key when fn hosts the key-kind dispatch of signing - the signing function itself, or a helper whose
+// only callers are the signing function and which contains the signature primitives.
+func signHostKey(c *Ctx, fn *ssa.Function) string {
+	signFn, _ := c.signFunc()
+	if signFn == nil {
+		return "\x00"
+	}
+	if fn == signFn {
+		return c.FuncKey(fn)
+	}
+	hasPrim := false
+	for _, ci := range c.signPrimitiveCalls() {
+		if ci.Parent() == fn {
+			hasPrim = true
+		}
+	}
+	callers := c.Graph().Callers(fn)
+	if hasPrim && len(callers) == 1 && callers[0] == signFn {
+		return c.FuncKey(fn)
+	}
+	return "\x00"
+}
+
+// panicRole names the invariant that is expected to discharge a panic in fn, by what fn is (not by what it is called):
+// the extension-OID lookup, the host of signing's key-kind dispatch, the hashing method, an Oid method of an extension
+// configuration, the directory-walk callback.
+func panicRole(c *Ctx, fn *ssa.Function) string {
+	if fn == c.Func("generator/cert", "ExpectOid") {
+		return "cert.ExpectOid"
+	}
+	if signHostKey(c, fn) == c.FuncKey(fn) {
+		return "cert.CertificateContext.Sign"
+	}
+	if fn == c.Method("generator/config", "CertificateContent", "HashSum") {
+		return "config.CertificateContent.HashSum"
+	}
+	if iface := c.extConfigIface(); iface != nil && fn.Name() == "Oid" && fn.Signature.Recv() != nil {
+		for _, t := range c.implementations(iface) {
+			if c.methodOf(t, "Oid") == fn {
+				return "v1.CustomExtension.Oid"
+			}
+		}
+	}
+	for _, cis := range c.funcsCalling("io/fs.WalkDir") {
+		for _, ci := range cis {
+			if mc, ok := unwrapConv(ci.Common().Args[2]).(*ssa.MakeClosure); ok && mc.Fn == ssa.Value(fn) {
+				return "filesystem.importFiles$1"
+			}
+		}
+	}
+	return c.FuncKey(fn)
 }
